@@ -424,6 +424,14 @@ def panel_configs(verif_seed):
         {"k": "generic", "n": 3, "dtype": "f8", "seed": g.randrange(1 << 20), "sym": "diagm"},
         {"k": "generic", "n": 3, "dtype": "c16", "seed": g.randrange(1 << 20), "sym": "diagm"}]}},
                 "k": 0, "rand": "rademacher", "max_iters": 1})
+    # a declared-PSD operator whose small diagonal entries are buried in the noise of their rows: single estimates of them are
+    # often negative -- the mean over keys must still be the true (tiny, positive) value (no clamping, no 'repair')
+    for rand in ("normal", "rademacher"):
+        bad = {"k": "ann", "name": "PSD", "of": {"k": "generic", "n": g.choice([6, 8, 10]), "dtype": "f8", "seed": 0, "sym": "psd_badscale"}}
+        out.append({"recipe": bad, "k": 0, "rand": rand, "max_iters": 1})
+        out.append({"via": "dispatch", "what": "diag", "name": "psd-badscale", "recipe": bad, "k": 0, "rand": rand, "max_iters": 1})
+    out.append({"via": "dispatch", "what": "trace", "name": "psd-badscale", "recipe": {"k": "ann", "name": "PSD", "of": {
+        "k": "generic", "n": 8, "dtype": "f8", "seed": 0, "sym": "psd_badscale"}}, "k": 0, "rand": "normal", "max_iters": 1})
     # probe blocks of more than 2^20 entries (n x 100 with n > 10485), in every precision: exactness with Rademacher probes
     # on a Diagonal operator (no statistics involved), and unbiasedness with normal probes (fewer keys, wider threshold)
     for dt in ("f4", "f8", "c8"):
